@@ -370,3 +370,39 @@ func short(s string) string {
 	}
 	return strings.Join(parts, "|")
 }
+
+// DBState reads, through a separate read-only connection, where a secret and a
+// melt quote currently are: proof in {UNSPENT,PENDING,SPENT}, quote state, preimage.
+func (e *Env) DBState(secret, meltQuote string) (proof, quote, preimage string, err error) {
+	p := filepath.Join(e.Dir, "mint.sqlite.db")
+	db, err := sql.Open("sqlite3", "file:"+p+"?mode=ro&_busy_timeout=5000")
+	if err != nil {
+		return "", "", "", err
+	}
+	defer db.Close()
+	var n, m int
+	if err = db.QueryRow("SELECT COUNT(*) FROM proofs WHERE secret = ?", secret).Scan(&n); err != nil {
+		return
+	}
+	if err = db.QueryRow("SELECT COUNT(*) FROM pending_proofs WHERE secret = ?", secret).Scan(&m); err != nil {
+		return
+	}
+	switch {
+	case n > 0 && m > 0:
+		proof = "SPENT+PENDING"
+	case n > 0:
+		proof = "SPENT"
+	case m > 0:
+		proof = "PENDING"
+	default:
+		proof = "UNSPENT"
+	}
+	if meltQuote != "" {
+		var pre sql.NullString
+		if err = db.QueryRow("SELECT state, preimage FROM melt_quotes WHERE id = ?", meltQuote).Scan(&quote, &pre); err != nil {
+			return
+		}
+		preimage = pre.String
+	}
+	return
+}
